@@ -665,26 +665,25 @@ impl TypedStmt {
                 vec![]
             }
             StmtEnum::ForEachLoop(pattern, array, body) => {
-                let (elem_in_bits, _) = array
+                let (elem_in_bits, num_elems) = array
                     .ty
                     .unwrap_array_size(prg, circuit.const_sizes())
                     .expect("Found a non-array value in an array access expr");
                 env.push();
                 let array = array.compile(prg, env, circuit);
 
-                let mut i = 0;
-                while i < array.len() {
+                // (one iteration per element, also if the elements are zero-sized)
+                for i in 0..num_elems {
                     // each iteration gets its own scope, so that bindings introduced by the body
                     // (which might shadow outer variables) do not leak into the next iteration:
                     env.push();
-                    let binding = &array[i..i + elem_in_bits];
+                    let binding = &array[i * elem_in_bits..(i + 1) * elem_in_bits];
                     pattern.compile(binding, prg, env, circuit);
 
                     for stmt in body {
                         stmt.compile(prg, env, circuit);
                     }
                     env.pop();
-                    i += elem_in_bits;
                 }
                 env.pop();
                 vec![]
